@@ -14,6 +14,8 @@ Reading guide
                          recursion through self-application); every theorem holds for every fuel
 -/
 import EPV.Lemmas.ClosuresStep
+import EPV.Lemmas.ClosuresHof
+import EPV.Lemmas.ClosuresFlags
 namespace EPV.C16
 open EPV.Clo
 
@@ -37,6 +39,31 @@ theorem closure_eq_spec_partial (cfg : Cfg) (fuel : Nat) (p : Expr)
   rw [hs]
   generalize (eval cfg fuel p _ [] _).2 = r
   cases r <;> rfl
+
+/-- on a tree with the F16 repair (every evaluation of a function expression yields a new function
+item) the `stale` trigger is never raised: no program, no call history can make a function item
+see the bindings of another evaluation of its function expression. -/
+theorem no_stale_when_repaired (cfg : Cfg) (hs : cfg.share = false) (fuel : Nat) (p : Expr) :
+    (implEval cfg fuel p).flags.stale = false :=
+  ns_eval cfg hs fuel p _ _ _
+
+/-- `closure_eq_spec` — full strength for F16 on the repaired tree: closures are lexical and fresh
+for **all** programs and call histories.  The remaining hypotheses are the triggers of the other
+recorded findings (they do not involve closure capture): `scope` can only be raised by a program
+with a free variable once F05 is repaired (F05c, dynamic scope of unbound names), `arity` F16e,
+`focus` F16f, `misc` F16m. -/
+theorem closure_eq_spec (fuel : Nat) (p : Expr)
+    (h₁ : (implEval Cfg.fixed fuel p).flags.scope = false)
+    (h₂ : (implEval Cfg.fixed fuel p).flags.arity = false)
+    (h₃ : (implEval Cfg.fixed fuel p).flags.focus = false)
+    (h₄ : (implEval Cfg.fixed fuel p).flags.misc = false) :
+    (implEval Cfg.fixed fuel p).result = specEval fuel p := by
+  apply closure_eq_spec_partial
+  have h₀ := no_stale_when_repaired Cfg.fixed rfl fuel p
+  generalize (implEval Cfg.fixed fuel p).flags = fl at *
+  cases fl
+  simp only at h₀ h₁ h₂ h₃ h₄
+  simp [Flags.none, h₀, h₁, h₂, h₃, h₄]
 
 /-- the canonical witness of F16: `(for $i in (1,2) return function(){$i}) ! .()` -/
 def witnessF16 : Expr :=
@@ -95,5 +122,114 @@ theorem call_repeatable (cfg : Cfg) (n : Nat) (a : Nat) (args : List Seq)
   cases r₁ <;> cases r₂ <;> simp [Except.map] at s₁ ⊢
   · exact s₁.symm
   · exact s₁.1.symm
+
+/-! ## higher-order functions -/
+
+/-- `hof_eq_expansion`, part 1 (model = F&O definition): the loops of the implementation
+(`for item in …: func(item)`, accumulator loops, `reversed`, `zip`) compute, for **every** function
+item, sequence and state, what the definitional recursions of F&O 3.1 §16.2 compute (head/tail
+recursion `fold-left(tail($seq), $f($zero, head($seq)), $f)` etc.) — in every run that raises no
+trigger flag. -/
+theorem hof_eq_expansion (cfg : Cfg) (n : Nat) (c : ICtx) (a : Nat) :
+    (∀ xs D, Sim Prod.fst (hofForEach cfg (eval cfg n) c a D [] xs) (specForEach (specCall (sem n)) a xs)) ∧
+    (∀ xs D, Sim Prod.fst (hofFilter cfg (eval cfg n) c a D [] xs) (specFilter (specCall (sem n)) a xs)) ∧
+    (∀ xs zero D, Sim Prod.fst (hofFoldLeft cfg (eval cfg n) c a D zero xs)
+        (specFoldLeft (specCall (sem n)) a zero xs)) ∧
+    (∀ xs zero D, Sim Prod.fst (hofFoldRightRev cfg (eval cfg n) c a D zero xs.reverse)
+        (specFoldRight (specCall (sem n)) a zero xs)) ∧
+    (∀ xs ys D, Sim Prod.fst (hofPairs cfg (eval cfg n) c a D [] (xs.zip ys))
+        (specForEachPair (specCall (sem n)) a xs ys)) := by
+  have hev := eval_sim cfg n
+  refine ⟨fun xs D => ?_, fun xs D => ?_, fun xs zero D => ?_, fun xs zero D => ?_, fun xs ys D => ?_⟩
+  · simpa only [List.nil_append, bind_pure] using hofForEach_sim cfg _ _ hev c a xs D []
+  · simpa only [List.nil_append, bind_pure] using hofFilter_sim cfg _ _ hev c a xs D []
+  · exact hofFoldLeft_sim cfg _ _ hev c a xs D zero
+  · simpa only [List.reverse_reverse] using hofFoldRightRev_sim cfg _ _ hev c a xs.reverse D zero
+  · simpa only [List.nil_append, bind_pure] using hofPairs_sim cfg _ _ hev c a xs ys D []
+
+/-- `hof_eq_expansion`, part 2 (F&O definition = list combinator): for a function item that
+behaves as a pure total function `g`, for-each is `flatMap`, filter is `filter`, fold-left is
+`foldl`, fold-right is `foldr`, for-each-pair is `zipWith` (flattened). -/
+theorem hof_eq_list (callf : Nat → List Seq → SM Seq) (a : Nat) :
+    (∀ g : Item → Seq, (∀ x, callf a [[x]] = pure (g x)) →
+        ∀ xs, specForEach callf a xs = pure (xs.flatMap g)) ∧
+    (∀ p : Item → Bool, (∀ x, callf a [[x]] = pure [.bool (p x)]) →
+        ∀ xs, specFilter callf a xs = pure (xs.filter p)) ∧
+    (∀ g : Seq → Item → Seq, (∀ z x, callf a [z, [x]] = pure (g z x)) →
+        ∀ xs zero, specFoldLeft callf a zero xs = pure (xs.foldl g zero)) ∧
+    (∀ g : Item → Seq → Seq, (∀ x r, callf a [[x], r] = pure (g x r)) →
+        ∀ xs zero, specFoldRight callf a zero xs = pure (xs.foldr g zero)) ∧
+    (∀ g : Item → Item → Seq, (∀ x y, callf a [[x], [y]] = pure (g x y)) →
+        ∀ xs ys, specForEachPair callf a xs ys = pure (List.zipWith g xs ys).flatten) :=
+  ⟨fun g hg xs => specForEach_pure callf a g hg xs, fun p hp xs => specFilter_pure callf a p hp xs,
+   fun g hg xs zero => specFoldLeft_pure callf a g hg xs zero,
+   fun g hg xs zero => specFoldRight_pure callf a g hg zero xs,
+   fun g hg xs ys => specForEachPair_pure callf a g hg xs ys⟩
+
+/-- test on literals: the expansions are not vacuous — `fold-right((1,2,3), (), function($x,$r){($r,$x)})` -/
+example : specEval 20 (.foldR (.par (.cat (.cat (.lit 1) (.lit 2)) (.lit 3))) .emp
+    (.fnE 0 [0, 1] (.cat (.var 1) (.var 0)))) = .ok [.int 3, .int 2, .int 1] := by decide
+
+/-! ## sort -/
+
+/-- `sort_perm_sorted_stable`: the model's `fn:sort` (keys computed once per item, then a stable
+sort — `List.mergeSort`, standing for CPython's `sorted`) returns a permutation of its input,
+ordered by key (lexicographic order on integer key sequences, a proper prefix first), keeps the
+input order of items whose keys compare equal-or-smaller (stability: every ordered pair of the
+input stays in that order), and is the specification's reference insertion sort. -/
+theorem sort_perm_sorted_stable (ks : List (Item × List Int)) :
+    (sortByKey ks).Perm (ks.map (·.1)) ∧
+    (ks.mergeSort kle).Pairwise (fun p q => keyLe p.2 q.2 = true) ∧
+    (∀ p q, keyLe p.2 q.2 = true → [p, q].Sublist ks → [p, q].Sublist (ks.mergeSort kle)) ∧
+    sortByKey ks = (sortSpec ks).map (·.1) := by
+  refine ⟨?_, ?_, ?_, sortByKey_eq ks⟩
+  · exact (List.mergeSort_perm ks _).map _
+  · exact List.pairwise_mergeSort kle_trans kle_total ks
+  · intro p q hpq hsub
+    exact List.pair_sublist_mergeSort kle_trans kle_total hpq hsub
+
+/-- the key order is a total preorder (needed for "ordered" to mean anything) -/
+theorem key_order_total_preorder :
+    (∀ a, keyLe a a = true) ∧ (∀ a b, (keyLe a b || keyLe b a) = true) ∧
+    (∀ a b c, keyLe a b = true → keyLe b c = true → keyLe a c = true) :=
+  ⟨keyLe_refl, keyLe_total, keyLe_trans⟩
+
+/-- test on literals: stability is observable through a secondary component — sort by `x mod 2` -/
+example : sortByKey [(.int 3, [1]), (.int 1, [1]), (.int 2, [0]), (.int 4, [0])] =
+    [.int 2, .int 4, .int 3, .int 1] := by rw [sortByKey_eq]; decide
+
+/-! ## partial application -/
+
+/-- `partial_apply_eq_direct` (specification): calling the partial application `f(?, v, ?)` with
+arguments `(a, b)` is the direct call `f(a, v, b)`. -/
+theorem partial_apply_eq_direct_spec (sev : Expr → SCtx → SM Seq) (h : SHeap) (a b : Nat) (o : SObj)
+    (pat : List (Option Seq)) (args : List Seq)
+    (ha : h[a]? = some { o with fixed := some pat }) (hb : h[b]? = some { o with fixed := none })
+    (hn : args.length = holes pat) :
+    specCall sev a args h = specCall sev b (fill pat args) h :=
+  specCall_partial sev h a b o pat args ha hb hn
+
+/-- `partial_apply_eq_direct` (model): the binding loop of `'inline partial function'`
+(`for varname, tk in zip(self.varnames, self): … args[k]; k += 1`) binds exactly what the direct
+call binds for the filled argument list … -/
+theorem partial_binding_eq_direct (ps : List Nat) (pat : List (Option Seq)) (args : List Seq) :
+    zipFill ps pat args = ps.zip (fill pat args) := zipFill_eq ps pat args
+
+/-- … hence, in the model, calling a partially applied inline function is calling a function
+item with the same code and variables on the filled argument list (same state, same flags, same
+result), whenever the pattern has the function's arity. -/
+theorem partial_apply_eq_direct (cfg : Cfg) (ev : Expr → ICtx → Env → IM (Seq × Env)) (c : ICtx) (D : Env)
+    (st : St) (a b : Nat) (ps : List Nat) (body : Expr) (env : Option Env) (lex : Env)
+    (pat : List (Option Seq)) (args : List Seq)
+    (ha : st.heap[a]? = some { tok := none, code := .inline ps body, env := env, lex := lex, fixed := some pat })
+    (hb : st.heap[b]? = some { tok := none, code := .inline ps body, env := env, lex := lex, fixed := none })
+    (hn : args.length = holes pat) (hp : pat.length = ps.length) :
+    callFn cfg ev c D a args st = callFn cfg ev c D b (fill pat args) st := by
+  have hl : (fill pat args).length = ps.length := by rw [fill_length pat args hn, hp]
+  unfold callFn
+  simp only [IM.bind_def, IM.getObj, ha, hb, FObj.nargsOk, FObj.arity, hn, BEq.rfl, if_true,
+    currentVars, IM.flag, hp, ne_eq, not_true_eq_false, decide_false, hl, zipFill_eq,
+    Flags.none_or]
+  cases cfg.share <;> simp [Flags.or]
 
 end EPV.C16
